@@ -429,7 +429,11 @@ def check_C08(tier, seed, t0):
 def check_C09(tier, seed, t0):
     own = ["EigFinite", "BackwardStable", "OrthogonalOrUnitNorm", "QuasiTriangular", "BlocksStandardised", "ExactConjugatePairing",
            "FailureIsRuntimeError", "DecompositionFailed", "UnknownRow", "Abort"]
-    return ir_flow("C09", tier, seed, kernel_descs("eig", tier, seed), own, [], COMMON_ASSUME[:1] + [
+    fixed = "mode=eig;kty=d;count=102;nmax=64;seed=300"   # recorded finding (known_findings.json), in the corpus for every seed
+    descs = kernel_descs("eig", tier, seed)
+    if fixed not in descs:
+        descs.append(fixed)
+    return ir_flow("C09", tier, seed, descs, own, [], COMMON_ASSUME[:1] + [
         "backward stability is MEASURED on generated families (sizes 2..64, 11 entry patterns incl. zero matrix, defective and repeated eigenvalues, "
         "scalings 1e-100/1e100, 3 scalar types) and judged by the spec: sampling, not proof",
         "decided exactly from the returned bits: zero imaginary parts, adjacent exact conjugates with the positive part first, quasi-triangular T, "
